@@ -147,11 +147,11 @@ theorem classic_run_eq_ref (s : Stmt) (fuel : Nat) (frame : Frame) (h : Sup fals
   rw [execFrom_sup (fuel + 1) s _ h, classic_flow_eq_ref (fuel + 1) s _ h]
   rfl
 
-/-- the clause at which evalSwitch starts executing is the one Go selects -/
-theorem classic_switch_selects_go_clause (tagv : Int) (s : Stack) (cls : Stmt) (h : numDefaults cls ≤ 1) :
-    (match pickCase tagv s cls with | some cl => some cl | none => pickDefault none cls) =
-    (match selectCase tagv s cls with | some c => some c | none => selectDefault cls) := by
-  rw [pickCase_eq, pickDefault_eq cls h]
+/-- the clause at which evalSwitch starts executing is the one Go selects, and the case expressions evaluated
+    on the way (left to right, top to bottom, until the first match) leave the same side effects -/
+theorem classic_switch_selects_go_clause (tagv : Int) (st : St) (cls : Stmt) (h : numDefaults cls ≤ 1) :
+    pickCase tagv st cls = selectCaseSt tagv st cls ∧ pickDefault none cls = selectDefault cls :=
+  ⟨pickCase_eq tagv cls st, pickDefault_eq cls h⟩
 
 /-- ORIGINAL code: a labelled loop never ends, whatever the fuel -/
 theorem orig_labelled_loop_never_ends (n : Nat) (l : Label) (init post body : Stmt) (c : Option Cond) (st : St) :
@@ -165,14 +165,14 @@ theorem orig_range_without_vars_skips_body (n : Nat) (str dfn : Bool) (keys vals
 
 /-! ## non-vacuity -/
 
-/-- a program of the supported fragment: labelled continue out of a switch inside a nested loop, a block
-    with a local, return from inside the loop -/
+/-- a program of the supported fragment: labelled continue out of a switch inside a nested loop, a case
+    expression with a side effect, a block with a local, return from inside the loop -/
 def demo : Stmt :=
   .seq (.for [7] (.define 10 (.lit 0)) (some (.lt (.var 10) (.lit 3))) (.assign 10 (.add (.var 10) (.lit 1)))
     (.seq (.emit 1 (.var 10))
       (.seq (.for [] (.define 11 (.lit 0)) (some (.lt (.var 11) (.lit 2))) (.assign 11 (.add (.var 11) (.lit 1)))
         (.seq (.switch [] .skip (some (.var 11))
-            (.clause (some [.val (.lit 1)]) false (.cont (some 7))
+            (.clause (some [.eff 6 (.lit 7), .val (.lit 1)]) false (.cont (some 7))
               (.clause none true (.emit 2 (.var 11))
                 (.clause (some [.val (.lit 5)]) false (.block (.seq (.define 4 (.lit 9)) (.seq (.emit 3 (.var 4)) .skip))) .skip))))
           .skip))
@@ -181,7 +181,7 @@ def demo : Stmt :=
 
 example : Sup false demo = true := by decide
 example : run fixedCfg demo 40 [(0, 0)] = Ref.run demo 41 [(0, 0)] := classic_run_eq_ref demo 39 _ (by decide)
-example : (match run fixedCfg demo 40 [(0, 0)] with | .done tr _ => tr.length | _ => 0) = 9 := by decide +kernel
+example : (match run fixedCfg demo 40 [(0, 0)] with | .done tr _ => tr.length | _ => 0) = 15 := by decide +kernel
 example : run origCfg demo 40 [(0, 0)] = .timeout := by decide +kernel
 
 /-- int8: 100 + 100 wraps to -56; -128 / -1 = -128; 1 / 0 panics -/
